@@ -52,6 +52,7 @@ EXHAUSTIVE = {"quick": False, "thorough": False}
 ASSUMPTIONS = ["termination is judged as bounded logical progress (function entries in _griffe), not wall-clock"]
 STEP_BUDGET = 1_000_000
 WILDCARD_CREATED: set[int] = set()
+PACKAGES_LOADED: list[str] = []  # M-EXT: names of packages in the order on_package_loaded fired (nested loads included)
 _KEEPALIVE: list = []
 
 
@@ -64,6 +65,9 @@ def make_extension():  # noqa: ANN201
         def on_wildcard_expansion(self, *, alias, loader, **kwargs):  # noqa: ANN001, ANN003, ARG002
             WILDCARD_CREATED.add(id(alias))
             _KEEPALIVE.append(alias)
+
+        def on_package_loaded(self, *, pkg, loader, **kwargs):  # noqa: ANN001, ANN003, ARG002
+            PACKAGES_LOADED.append(pkg.name)
 
     return Recorder()
 ACCESSORS = ["resolved", "target", "final_target", "kind", "members", "docstring", "lineno", "path", "canonical_path",
@@ -163,13 +167,19 @@ def observe_exports(rec, collection, files: dict, hops: list, all_cycle: bool, a
             rec.count("exports_left_with_unexpanded_reference")
 
 
-def classify(files: dict, descs: dict, exc: BaseException | None, order: list, external) -> tuple[str | None, list[str]]:  # noqa: ANN001
+def classify(files: dict, descs: dict, exc: BaseException | None, order: list, external,  # noqa: ANN001
+             nested_loads: list | None = None) -> tuple[str | None, list[str]]:
     """Mechanism predicates for exceptions escaping load()/resolve_aliases()."""
     tried = ["C06-nested-load-mutates-members"]
     if exc is None:
         return None, tried
     dict_mutated = isinstance(exc, RuntimeError) and "changed" in str(exc) and "during iteration" in str(exc)
     stale_placeholder = isinstance(exc, KeyError) and str(exc.args[0] if exc.args else "").endswith("/*")
+    if dict_mutated and external is not False and nested_loads:
+        # observed part (M-EXT): the failing call itself loaded a package nobody asked it to load (on_package_loaded fired
+        # inside it) - resolve_module_aliases / expand_wildcards were iterating obj.members when that nested load (and the
+        # wildcard expansion it runs in already loaded modules) changed the dictionary
+        return "C06-nested-load-mutates-members", tried
     if (dict_mutated or stale_placeholder) and external is not False:
         # structural part: a loaded package wildcard-imports (directly or in a class body) from a package that was not
         # loaded up front, so expand_wildcards() loads it in the middle of iterating obj.members
@@ -205,8 +215,10 @@ def run_case(rec, files: dict, descs: dict | None, order: list[str], implicit: b
     stage = "load"
     deferred: list[tuple[str, str]] = []
     loaded_now: list[str] = []
+    call_mark, call_asked = [0], [None]
     try:
         with case_watchdog(120), tmp_tree(files) as root:
+            PACKAGES_LOADED.clear()
             WILDCARD_CREATED.clear()
             _KEEPALIVE.clear()
             loader = griffe.GriffeLoader(search_paths=[root], allow_inspection=False,
@@ -214,6 +226,7 @@ def run_case(rec, files: dict, descs: dict | None, order: list[str], implicit: b
             steps.begin(STEP_BUDGET)
             try:
                 for pkg in order:
+                    call_mark[0], call_asked[0] = len(PACKAGES_LOADED), (None if pkg == "resolve" else pkg)
                     loaded_now[:] = [x for x in order[: order.index(pkg) + 1] if x != "resolve"] if pkg != "resolve" else loaded_now
                     if pkg == "resolve":  # histories: load, resolve, load more, resolve again
                         stage = "resolve_aliases (between loads)"
@@ -228,6 +241,7 @@ def run_case(rec, files: dict, descs: dict | None, order: list[str], implicit: b
                 snaps = []
                 for i in range(3):
                     stage = f"resolve_aliases#{i + 1}"
+                    call_mark[0], call_asked[0] = len(PACKAGES_LOADED), None
                     unresolved, iterations = loader.resolve_aliases(implicit=implicit, external=external)
                     snaps.append((snapshot(loader.modules_collection), sorted(unresolved)))
                     by_path = {al.path: al for al in all_aliases(loader.modules_collection)}
@@ -372,7 +386,8 @@ def run_case(rec, files: dict, descs: dict | None, order: list[str], implicit: b
         rec.fail_exc(case, f"stack overflow during {stage}", exc, nontrivial=nontrivial, tags=tags)
         return
     except Exception as exc:  # noqa: BLE001
-        fid, tried = classify(files, descs, exc, loaded_now or [x for x in order if x != 'resolve'], external)
+        nested = [p for p in PACKAGES_LOADED[call_mark[0]:] if p != call_asked[0]]
+        fid, tried = classify(files, descs, exc, loaded_now or [x for x in order if x != 'resolve'], external, nested)
         rec.fail_exc(case, f"{type(exc).__name__} escaped {stage}", exc, finding=fid, tried=tried, nontrivial=nontrivial, tags=tags)
         return
     if deferred:  # the walk completed; the only refutations were of a listed mechanism (one record per case)
